@@ -55,6 +55,12 @@ type fnSpec struct {
 }
 
 // canonical source text of an expression (gofmt's rendering, on one line)
+func stmtText(st ast.Stmt) string {
+	var b bytes.Buffer
+	printer.Fprint(&b, token.NewFileSet(), st)
+	return b.String()
+}
+
 func exprText(e ast.Expr) string {
 	var b bytes.Buffer
 	if err := printer.Fprint(&b, token.NewFileSet(), e); err != nil {
@@ -2120,6 +2126,23 @@ func moduleSteps(repo string) (string, error) {
 	return stepTable(repo, "moduleSteps", "generator.go, persister.go, module.go", ts)
 }
 
+// the import listings (C04): Imports of every entity kind and field type, UnusedImports and Dependents of a file
+func importSteps(repo string) (string, error) {
+	return stepTable(repo, "importSteps", "file.go, message.go, field.go, oneof.go, method.go, service.go, enum.go, enum_value.go, field_type.go, field_type_elem.go", []stepTarget{
+		{"file.go", "file", "Imports"}, {"file.go", "file", "UnusedImports"}, {"file.go", "file", "Dependents"},
+		{"message.go", "msg", "Imports"}, {"field.go", "field", "Imports"}, {"oneof.go", "oneof", "Imports"},
+		{"method.go", "method", "Imports"}, {"service.go", "service", "Imports"}, {"enum.go", "enum", "Imports"}, {"enum_value.go", "enumVal", "Imports"},
+		{"field_type.go", "scalarT", "Imports"}, {"field_type.go", "enumT", "Imports"}, {"field_type.go", "embedT", "Imports"},
+		{"field_type.go", "repT", "Imports"},
+		{"field_type_elem.go", "scalarE", "Imports"}, {"field_type_elem.go", "enumE", "Imports"}, {"field_type_elem.go", "embedE", "Imports"}})
+}
+
+// lang/go/name.go: which rule names which kind of node (the type switch of Name), the wrapper's conflict loop, the walk of uniqueNames
+func goNameSteps(repo string) (string, error) {
+	return stepTable(repo, "goNameSteps", "lang/go/name.go", []stepTarget{
+		{"lang/go/name.go", "context", "Name"}, {"lang/go/name.go", "context", "OneofOption"}, {"lang/go/name.go", "", "uniqueNames"}})
+}
+
 // lang/go/package.go: the pattern whose matches are replaced by "_" in package names
 func packagePattern(repo string) (string, error) {
 	f := parse(filepath.Join(repo, "lang/go/package.go"))
@@ -2245,6 +2268,10 @@ func stepTable(repo, defName, what string, targets []stepTarget) (string, error)
 		stepOf := func(e ast.Expr, lhs string) error {
 			c, ok := e.(*ast.CallExpr)
 			if !ok {
+				if _, isLit := e.(*ast.FuncLit); isLit {
+					steps = append(steps, lhs+"<function literal>") // translated on its own where it matters
+					return nil
+				}
 				if lhs != "" {
 					steps = append(steps, lhs+exprText(e))
 				}
@@ -2280,7 +2307,13 @@ func stepTable(repo, defName, what string, targets []stepTarget) (string, error)
 						lhs = append(lhs, exprText(l))
 					}
 					if len(x.Rhs) != 1 {
-						return fmt.Errorf("%s.%s: multi-value assignment", t.recv, t.name)
+						// `a, b = e1, e2`: by its text
+						var rhs []string
+						for _, r := range x.Rhs {
+							rhs = append(rhs, exprText(r))
+						}
+						steps = append(steps, strings.Join(lhs, ", ")+" = "+strings.Join(rhs, ", "))
+						continue
 					}
 					if err := stepOf(x.Rhs[0], strings.Join(lhs, ", ")+" = "); err != nil {
 						return err
@@ -2292,10 +2325,14 @@ func stepTable(repo, defName, what string, targets []stepTarget) (string, error)
 					}
 					steps = append(steps, "}")
 				case *ast.ForStmt:
-					if x.Init != nil || x.Post != nil || x.Cond == nil {
-						return fmt.Errorf("%s.%s: for statement with init / post", t.recv, t.name)
+					if x.Post != nil || x.Cond == nil {
+						return fmt.Errorf("%s.%s: for statement with a post statement or without a condition", t.recv, t.name)
 					}
-					steps = append(steps, "for "+exprText(x.Cond)+" {")
+					head := "for "
+					if x.Init != nil {
+						head += strings.Join(strings.Fields(stmtText(x.Init)), " ") + "; "
+					}
+					steps = append(steps, head+exprText(x.Cond)+" {")
 					if err := walk(x.Body.List); err != nil {
 						return err
 					}
@@ -2357,6 +2394,9 @@ func stepTable(repo, defName, what string, targets []stepTarget) (string, error)
 						}
 						steps = append(steps, "}")
 					}
+				case *ast.DeclStmt:
+					// a local type or variable declaration: by its text
+					steps = append(steps, "decl "+strings.Join(strings.Fields(stmtText(x)), " "))
 				case *ast.BranchStmt:
 					steps = append(steps, x.Tok.String())
 				case *ast.ReturnStmt:
@@ -2570,7 +2610,7 @@ func genCode(repo string) (map[string]string, error) {
 	tables := []struct {
 		name string
 		gen  func(string) (string, error)
-	}{{"nameHelpers", nameHelpers}, {"acceptOrders", acceptOrders}, {"typePredicates", typePredicates}, {"hydratePhases", hydratePhases}, {"childAtPaths", childAtPaths}, {"workflowSteps", workflowSteps}, {"commentSteps", commentSteps}, {"persistSteps", persistSteps}, {"astEntrySteps", astEntrySteps}, {"packagePattern", packagePattern}, {"moduleSteps", moduleSteps}}
+	}{{"nameHelpers", nameHelpers}, {"acceptOrders", acceptOrders}, {"typePredicates", typePredicates}, {"hydratePhases", hydratePhases}, {"childAtPaths", childAtPaths}, {"workflowSteps", workflowSteps}, {"commentSteps", commentSteps}, {"persistSteps", persistSteps}, {"astEntrySteps", astEntrySteps}, {"packagePattern", packagePattern}, {"moduleSteps", moduleSteps}, {"importSteps", importSteps}, {"goNameSteps", goNameSteps}}
 	for _, g := range tables {
 		t, err := g.gen(repo)
 		if err != nil {
